@@ -4,7 +4,7 @@ from props.opt_common import *
 
 class C14(OptCheck):
     prop = "C14"
-    vfiles = ["Properties/Properties_C14.v", "Tie/Tie_C03.v", "Tie/Tie_C04.v"]
+    vfiles = ["Properties/Properties_C14.v", "Tie/Tie_C03.v"]
     corpus = "C14.txt"
     oracle_args = ("oracle", "C14")
     design_ref = "DESIGN.md section 6, C14"
